@@ -2,6 +2,7 @@ package main
 
 import (
 	"fmt"
+	"math/bits"
 	"strconv"
 	"strings"
 
@@ -202,6 +203,154 @@ func init() {
 				showU64s(bitmap.RMaskUpto[:]), showU64s(bitmap.Bit[:]), showU64s(bitmap.RBit[:])}, ";")
 		}
 		panic("harness: no such table " + a[0])
+	})
+	// builderprobe: Extend with segment sizes of hundreds of millions of bits (running end around 2^31/3 and
+	// beyond); the C12 builder clauses are evaluated here on the real code. Output "ok" or the first discrepancy.
+	reg("builderprobe", func(a []string) string {
+		b := bitmap.NewBuilder(0)
+		want := map[int32]bool{}
+		off := int32(0)
+		for _, tok := range strings.Split(a[0], ";") {
+			f := strings.Split(tok, ":")
+			ps, size := parseI32s(f[0]), mustI32(f[1])
+			for _, p := range ps {
+				want[off+p] = true
+			}
+			b.Extend(ps, size)
+			off += size
+			if b.Offset != off {
+				return fmt.Sprintf("Offset=%d want %d", b.Offset, off)
+			}
+			if int64(len(b.Words))*64 < int64(off) {
+				return fmt.Sprintf("%d words do not cover Offset %d", len(b.Words), off)
+			}
+		}
+		n := 0
+		for i, w := range b.Words {
+			for w != 0 {
+				p := int32(i*64 + bits.TrailingZeros64(w))
+				if !want[p] {
+					return fmt.Sprintf("bit %d is set but was never added", p)
+				}
+				n++
+				w &= w - 1
+			}
+		}
+		if n != len(want) {
+			return fmt.Sprintf("%d bits set, want %d", n, len(want))
+		}
+		return "ok"
+	})
+	// ofmanyprobe n k seed: OfMany on n segments with k positions each (given by a formula; the last segment may
+	// reach beyond its size) must equal Of of the shifted concatenation -- the property's own wording.
+	reg("ofmanyprobe", func(a []string) string {
+		n, k, seed := int(mustI64(a[0])), int(mustI64(a[1])), mustU64(a[2])
+		subs := make([][]int32, n)
+		sizes := make([]int32, n)
+		flat := make([]int32, 0, n*k)
+		base := int32(0)
+		for i := range subs {
+			size := int32(k*3 + int((seed+uint64(i))%7))
+			sizes[i] = size
+			p := int32((seed + uint64(i)*13) % 3)
+			for j := 0; j < k; j++ {
+				subs[i] = append(subs[i], p)
+				flat = append(flat, base+p)
+				p += 1 + int32((seed+uint64(i*k+j))%3)
+			}
+			if i == n-1 {
+				far := size + 700 + int32(seed%500) // beyond the last segment's size, several words further
+				subs[i] = append(subs[i], far)
+				flat = append(flat, base+far)
+			}
+			base += size
+		}
+		got := bitmap.OfMany(subs, sizes)
+		want := bitmap.Of(flat, base)
+		if len(got) != len(want) {
+			return fmt.Sprintf("OfMany gives %d words, Of(shifted positions, total) gives %d", len(got), len(want))
+		}
+		for i := range got {
+			if got[i] != want[i] {
+				return fmt.Sprintf("word %d differs", i)
+			}
+		}
+		return "ok"
+	})
+	// tbprobe shape n: TailBitmap histories of millions of Sets; the C15 clauses are evaluated here on the real code
+	reg("tbprobe", func(a []string) string {
+		n := mustI64(a[1]) // words
+		tb := bitmap.NewTailBitmap(0)
+		check := func(when string, isSet func(int64) bool) string {
+			if tb.Offset%64 != 0 {
+				return when + ": Offset not a multiple of 64"
+			}
+			if len(tb.Words) > 0 && tb.Words[0] == ^uint64(0) {
+				return when + ": first stored word is all-ones"
+			}
+			end := tb.Offset + int64(len(tb.Words))*64
+			for k := int64(0); k < 5000; k++ {
+				j := (k*2654435761 + 12345) % (end + 1)
+				if j >= end {
+					continue
+				}
+				want := uint64(0)
+				if isSet(j) {
+					want = 1
+				}
+				if got := tb.Get1(j); got != want {
+					return fmt.Sprintf("%s: Get1(%d)=%d want %d", when, j, got, want)
+				}
+				if got := tb.Get(j); (got != 0) != (want == 1) || (got != 0 && got != 1<<uint(j&63)) {
+					return fmt.Sprintf("%s: Get(%d)=%d", when, j, got)
+				}
+			}
+			for j := tb.Offset - 1; j >= 0 && j > tb.Offset-200; j-- {
+				if !isSet(j) {
+					return fmt.Sprintf("%s: Offset %d moved past position %d which is still 0", when, tb.Offset, j)
+				}
+			}
+			return ""
+		}
+		switch a[0] {
+		case "backfill": // words 1..n filled back to front, then word 0 completed
+			for j := (n+1)*64 - 1; j >= 64; j-- {
+				tb.Set(j)
+			}
+			set1 := func(j int64) bool { return j >= 64 && j < (n+1)*64 }
+			if r := check("after the back-to-front fill", set1); r != "" {
+				return r
+			}
+			for j := int64(0); j < 64; j++ {
+				tb.Set(j)
+			}
+			if r := check("after completing word 0", func(j int64) bool { return j < (n+1)*64 }); r != "" {
+				return r
+			}
+			if tb.Offset != (n+1)*64 {
+				return fmt.Sprintf("Offset=%d after everything below %d was set", tb.Offset, (n+1)*64)
+			}
+			tb.Compact()
+			if tb.Offset != (n+1)*64 {
+				return "Compact moved Offset although nothing was set"
+			}
+		case "farbit": // a bit n words ahead, then enough front words to cross the reclaim threshold
+			far := n*64 + 17
+			tb.Set(far)
+			for j := int64(0); j < 70000; j++ {
+				tb.Set(j)
+			}
+			if r := check("after crossing the reclaim threshold", func(j int64) bool { return j < 70000 || j == far }); r != "" {
+				return r
+			}
+			tb.Set(far + 640)
+			if r := check("after a later far Set", func(j int64) bool { return j < 70000 || j == far || j == far+640 }); r != "" {
+				return r
+			}
+		default:
+			panic("harness: bad tbprobe shape")
+		}
+		return "ok"
 	})
 	reg("getw", func(a []string) string {
 		return strconv.FormatUint(bitmap.Getw(parseU64s(a[0]), mustI32(a[1]), mustI32(a[2])), 10)
